@@ -110,14 +110,18 @@ def build_pair(fparams, decorate_src, ref_params, method=False, extra_globals=No
         g = sigs.compile_module(src, globs=extra_globals, tag='vmod')
         return g[fn], g['ref_' + fn], g
     if method:
+        # every third class makes instances that are falsy (an empty container, __bool__ returning False)
+        falsy = ('', '    def __len__(self): return 0\n', '    def __bool__(self): return False\n')[int(fn[2:]) % 3]
         src = ('from sigtools import modifiers\n'
                'class A(object):\n'
                '%s'
+               '%s'
                '    def %s(%s): %s\n'
                'class R(object):\n'
+               '%s'
                '    def %s(%s): %s\n') % (
-                   ''.join('    %s\n' % l for l in decorate_src), fn, sigs.render(fparams), body,
-                   fn, sigs.render(ref_params), body)
+                   falsy, ''.join('    %s\n' % l for l in decorate_src), fn, sigs.render(fparams), body,
+                   falsy, fn, sigs.render(ref_params), body)
     else:
         src = ('from sigtools import modifiers\n'
                '%s'
